@@ -991,6 +991,10 @@ func (m *Machine) stringEq(x, y StringV) *Term {
 		}
 		panic(m.unsupported("comparison of opaque string with concrete string"))
 	}
+	if x.HexOf != nil && y.HexOf != nil {
+		// hex encoding is injective: compare the encoded bytes instead of the digit characters
+		return m.bytesEq(x.HexOf, y.HexOf)
+	}
 	return m.bytesEq(x.B, y.B)
 }
 
